@@ -600,6 +600,68 @@ fn shared_tape_unit<F: Backend>(cx: &mut Cx, sub: &mut u64, bound: usize, cap: u
     sched::set_mode(Mode::Sequential);
 }
 
+/// Bodies for the free-running thread-sanitizer pass (tools/tsan_pass.sh builds
+/// the harness with `-Zsanitizer=thread` and runs `fv tsan-bodies <rounds>`).
+/// The controlled scheduler's hand-offs are happens-before edges and would
+/// blind a race detector, so here NO hook is installed and the rayon stand-in
+/// runs every parallel operation on real, free-running threads.  Each round
+/// also races a canceller thread against the run.  Result oracle as in the
+/// deciding exploration: complete result, or None only when cancelled.
+pub fn tsan_bodies(rounds: usize) -> i32 {
+    fidget_core::verif::set_hook(None);
+    let mut ws: Vec<Workload> = vec![
+        render2d::<VmFunction>(24, 8, 8),
+        render2d::<JitFunction>(24, 8, 8),
+        render2d_many_tiles::<VmFunction>(),
+        render3d::<VmFunction>(12, 4, 8, 4),
+        render3d::<JitFunction>(8, 4, 8, 4),
+        effects(),
+        mesh::<VmFunction>(2, 6, 3),
+        mesh::<VmFunction>(3, 2, 3),
+        mesh::<JitFunction>(2, 3, 3),
+        mesh_scene::<VmFunction>("corner ball + floor", &corner_ball_floor(), 3, 7, 3),
+        shared_tape::<VmFunction>(),
+        shared_tape::<JitFunction>(),
+    ];
+    let mut bad = 0;
+    for w in ws.iter_mut() {
+        sched::set_mode(Mode::Sequential);
+        let pool = ThreadPool::Custom(rayon::ThreadPoolBuilder::new().num_threads(w.pool_threads.max(2)).build().unwrap());
+        let solo = (w.run)(Some(&pool), &CancelToken::new());
+        sched::set_mode(Mode::Free(4));
+        let (mut full, mut none, mut wrong) = (0, 0, 0);
+        for r in 0..rounds {
+            // (a) never cancelled
+            let got = (w.run)(Some(&pool), &CancelToken::new());
+            if got != solo {
+                wrong += 1;
+            }
+            // (b) a canceller racing the run
+            let tok = CancelToken::new();
+            let t2 = tok.clone();
+            let delay: u64 = [0u64, 10_000, 100_000, 300_000, 1_000_000, 3_000_000, 10_000_000, 20_000_000][r % 8];
+            let got = std::thread::scope(|sc| {
+                sc.spawn(move || {
+                    for _ in 0..delay {
+                        std::hint::spin_loop();
+                    }
+                    t2.cancel();
+                });
+                (w.run)(Some(&pool), &tok)
+            });
+            match got {
+                None => none += 1,
+                g if g == solo => full += 1,
+                _ => wrong += 1,
+            }
+        }
+        println!("TSAN-BODIES workload=\"{}\" rounds={rounds} cancelled_none={none} cancelled_full={full} wrong_results={wrong}", w.name);
+        bad += wrong;
+    }
+    sched::set_mode(Mode::Sequential);
+    if bad > 0 { 3 } else { 0 }
+}
+
 fn bound_for_mesh(tier: Tier) -> usize {
     if tier == Tier::Quick { 1 } else { 2 }
 }
